@@ -341,8 +341,113 @@ func routable(run *kit.Run, l limits, p string, rte *fox.Route, key string, rep 
 		if _, err := g.Delete("GET", p); err != nil || g.Len() != 0 {
 			run.Violate("not-deletable|"+key, fmt.Sprintf("accepted pattern %q cannot be deleted again: %v", p, err), rep)
 		}
+		if hasDelims(p) {
+			served(run, l, p, pat, key, rep)
+		}
 	})
 	if run.WantSample() && strings.Contains(p, "{") {
 		run.Sample(map[string]any{"pattern": p, "accepted": true, "wildcards": wc})
+	}
+}
+
+// served: routability also holds for the route as the only route LEFT in a router (neighbouring routes registered and
+// deleted again before), through ServeHTTP with trailing slashes ignored, where a slash-adjusted request is served
+// right before the direct one (same pooled context): the handler must run with the pattern and the values of the
+// direct request.
+func served(run *kit.Run, l limits, p string, pat *ref.Pattern, key string, rep any) {
+	var opts []fox.GlobalOption
+	if l != noLimit {
+		opts = append(opts, fox.WithMaxRouteParams(uint16(l.params)), fox.WithMaxRouteParamKeyBytes(uint16(l.key)))
+	}
+	g, err := fox.New(append(opts, fox.WithIgnoreTrailingSlash(true))...)
+	if err != nil {
+		return
+	}
+	var gotPattern string
+	var gotParams []ref.KV
+	calls := 0
+	h := func(c fox.Context) {
+		calls++
+		gotPattern = c.Pattern()
+		gotParams = gotParams[:0]
+		for prm := range c.Params() {
+			gotParams = append(gotParams, ref.KV{K: prm.Key, V: prm.Value})
+		}
+	}
+	if _, err := g.Handle("GET", p, h); err != nil {
+		return
+	}
+	// neighbours: registered, then deleted again
+	hs := strings.IndexByte(p, '/')
+	host, rest := p[:hs], p[hs:]
+	var nb []string
+	if host != "" {
+		nb = append(nb, host+".zz"+rest, host+"-zz"+rest, "zz."+p, host+".zz/q", host+rest+"zz")
+		if k := strings.LastIndexByte(host, '.'); k > 0 {
+			nb = append(nb, host[:k]+rest, host[:k]+"/q")
+		}
+	} else {
+		nb = append(nb, p+"zz", p+"/zz", "zz.com"+p)
+		if len(p) > 1 && !strings.ContainsAny(p[len(p)-1:], "{}*") {
+			nb = append(nb, p[:len(p)-1])
+		}
+	}
+	var added []string
+	for _, q := range nb {
+		if _, err := g.Handle("GET", q, func(fox.Context) {}); err == nil {
+			added = append(added, q)
+		}
+	}
+	for i := len(added) - 1; i >= 0; i-- {
+		if _, err := g.Delete("GET", added[i]); err != nil {
+			run.Violate("neighbour-not-deletable|"+key, fmt.Sprintf("pattern %q registered next to %q cannot be deleted again: %v", added[i], p, err), rep)
+			return
+		}
+	}
+	w := &route.Response{H: map[string][]string{}}
+	for k := 0; k < 2; k++ {
+		var vals []ref.KV
+		for _, t := range pat.Toks {
+			switch {
+			case t.K == ref.Param && t.Host:
+				vals = append(vals, ref.KV{K: t.Name, V: hostVals[k%len(hostVals)]})
+			case t.K == ref.Param:
+				vals = append(vals, ref.KV{K: t.Name, V: pathVals[k%len(pathVals)]})
+			case t.K == ref.Catch:
+				vals = append(vals, ref.KV{K: t.Name, V: catchVals[k%len(catchVals)]})
+			}
+		}
+		full, ok := ref.Substitute(pat, vals)
+		if !ok {
+			return
+		}
+		cut := strings.IndexByte(full, '/')
+		q := route.Req{Method: "GET", Host: full[:cut], Path: full[cut:]}
+		// the slash-adjusted form first (other values), then the direct one
+		adj := q
+		if strings.HasSuffix(adj.Path, "/") && len(adj.Path) > 1 {
+			adj.Path = adj.Path[:len(adj.Path)-1]
+		} else {
+			adj.Path += "/"
+		}
+		if !strings.Contains(adj.Path, "//") {
+			adj.Path = strings.Replace(adj.Path, "/"+pathVals[k%len(pathVals)], "/other", 1)
+			g.ServeHTTP(w, adj.HTTP())
+		}
+		calls = 0
+		g.ServeHTTP(w, q.HTTP())
+		run.Count("served_routability_probes", 1)
+		if calls != 1 || gotPattern != p {
+			run.Violate("not-served|"+key, fmt.Sprintf("accepted pattern %q, the only route left in a router after %d neighbours were registered and deleted, does not serve its own instantiation %s: handler calls=%d pattern=%q", p, len(added), q, calls, gotPattern), rep)
+			return
+		}
+		if msg := route.SelfCheck(q, route.Obs{Pattern: gotPattern, Params: gotParams}); msg != "" {
+			run.Violate("bad-values|"+key, fmt.Sprintf("accepted pattern %q served %s (right after the slash-adjusted request %s) with values that do not substitute back: %s (got %v)", p, q, adj, msg, gotParams), rep)
+			return
+		}
+		if !pat.HasInfixCatchAll() && !route.SameParams(gotParams, vals) {
+			run.Violate("bad-values|"+key, fmt.Sprintf("accepted pattern %q: request %s (served right after the slash-adjusted request %s) was built from %v but the handler saw %v", p, q, adj, vals, gotParams), rep)
+			return
+		}
 	}
 }
